@@ -645,4 +645,134 @@ def buildTimeRange (startTime endTime now : Int) : TimeRange :=
   { start := if startTime ≤ 0 then now - oneHour else startTime,
     stop := if endTime ≤ 0 then now else endTime }
 
+/-! ## What the listener can leave incomplete, and `validation()` / `isCompleteExpr`
+(sql/query_stmt_parser.go, sql/base_stmt_parser.go)
+
+The antlr grammar and the tree walk are not modelled. What IS pinned (tables below, tied to the
+source by `Generated.C17.*`): every expression-node literal the listener builds and the fields it
+sets at construction, every place where nodes are linked or a clause of the statement is stored,
+the case list of `isCompleteExpr`, what `validation()` applies it to, and the `ParseFloat` guard. -/
+
+/-- `isCompleteExpr`: (case, body) -/
+def completeCaseTable : List (String × String) := [("nil", "return false"),
+  ("*stmt.SelectItem", "return isCompleteExpr(e.Expr)"),
+  ("*stmt.OrderByExpr", "return isCompleteExpr(e.Expr)"),
+  ("*stmt.ParenExpr", "return isCompleteExpr(e.Expr)"),
+  ("*stmt.NotExpr", "return isCompleteExpr(e.Expr)"),
+  ("*stmt.BinaryExpr", "return isCompleteExpr(e.Left) && isCompleteExpr(e.Right)"),
+  ("*stmt.CallExpr", "for _, param := range e.Params { if !isCompleteExpr(param) { return false } }; return true"),
+  ("default", "return true")]
+
+/-- `validation()`: (enclosing range, argument) of every `isCompleteExpr` call -/
+def validationCheckTable : List (String × String) := [("range q.selectItems", "item"), ("range q.orderBy", "item"), ("", "q.havingStmt")]
+
+/-- `visitExprAtom`: the `ParseFloat` call and the guard on its error -/
+def parseFloatGuardTable : List String := ["val, err := strconv.ParseFloat(valStr, 64)", "if err != nil { q.err = err return }"]
+
+/-- (function, assigned link or clause, value) -/
+def listenerLinkTable : List (String × String × String) := [
+  ("completeSortField", "q.orderBy", "append(q.orderBy, q.curOrderByExpr)"),
+  ("completeFuncExpr", "q.curOrderByExpr.Expr", "expr"),
+  ("completeFuncExpr", "q.selectItems", "append(q.selectItems, &stmt.SelectItem{Expr: expr})"),
+  ("parseFieldName", "q.curOrderByExpr.Expr", "fieldExpr"),
+  ("parseFieldName", "q.selectItems", "append(q.selectItems, &stmt.SelectItem{Expr: fieldExpr})"),
+  ("completeFieldExpr", "q.selectItems", "append(q.selectItems, &stmt.SelectItem{Expr: expr})"),
+  ("completeHaving", "q.havingStmt", "q.exprStack.Pop().(stmt.Expr)"),
+  ("completeTagFilterExpr", "parentExpr.Left", "e"),
+  ("completeTagFilterExpr", "parentExpr.Right", "e"),
+  ("completeTagFilterExpr", "parentExpr.Expr", "e"),
+  ("completeTagFilterExpr", "b.condition", "e"),
+  ("setExprParam", "expr.Params", "append(expr.Params, param)"),
+  ("setExprParam", "expr.Expr", "param"),
+  ("setExprParam", "expr.Left", "param"),
+  ("setExprParam", "expr.Right", "param")]
+
+/-- every expression node literal in the listener: (function, kind, fields set at construction) -/
+def listenerConstructTable : List (String × String × List String) := [
+  ("visitSortField", "OrderByExpr", ["Desc"]),
+  ("visitFieldExpr", "CallExpr", []),
+  ("visitFieldExpr", "ParenExpr", []),
+  ("visitFieldExpr", "BinaryExpr", ["Operator"]),
+  ("visitFieldExpr", "BinaryExpr", ["Operator"]),
+  ("visitFieldExpr", "BinaryExpr", ["Operator"]),
+  ("visitFieldExpr", "BinaryExpr", ["Operator"]),
+  ("completeFuncExpr", "SelectItem", ["Expr"]),
+  ("visitExprAtom", "NumberLiteral", ["Val"]),
+  ("parseFieldName", "FieldExpr", ["Name"]),
+  ("parseFieldName", "SelectItem", ["Expr"]),
+  ("completeFieldExpr", "SelectItem", ["Expr"]),
+  ("visitBoolExpr", "ParenExpr", []),
+  ("visitBoolExprLogicalOp", "BinaryExpr", ["Operator"]),
+  ("visitBoolExprAtom", "BinaryExpr", ["Operator"]),
+  ("visitTagFilterExpr", "ParenExpr", []),
+  ("visitTagFilterExpr", "BinaryExpr", ["Operator"]),
+  ("visitTagFilterExpr", "BinaryExpr", ["Operator"]),
+  ("createTagFilterExpr", "EqualsExpr", ["Key"]),
+  ("createTagFilterExpr", "NotExpr", ["Expr"]),
+  ("createTagFilterExpr", "LikeExpr", ["Key"]),
+  ("createTagFilterExpr", "LikeExpr", ["Key"]),
+  ("createTagFilterExpr", "RegexExpr", ["Key"]),
+  ("createTagFilterExpr", "NotExpr", ["Expr"]),
+  ("createTagFilterExpr", "RegexExpr", ["Key"]),
+  ("createTagFilterExpr", "NotExpr", ["Expr"]),
+  ("createTagFilterExpr", "EqualsExpr", ["Key"]),
+  ("createTagFilterExpr", "NotExpr", ["Expr"]),
+  ("createTagFilterExpr", "InExpr", ["Key"]),
+  ("createTagFilterExpr", "InExpr", ["Key"])]
+
+mutual
+/-- `isCompleteExpr` -/
+def Expr.complete : Expr → Bool
+  | .nil => false
+  | .selectItem e _ => e.complete
+  | .orderBy e _ => e.complete
+  | .paren e => e.complete
+  | .not e => e.complete
+  | .binary l r _ => l.complete && r.complete
+  | .call _ ps => completeList ps
+  | _ => true
+/-- `for _, param := range e.Params { if !isCompleteExpr(param) { return false } }; return true` -/
+def completeList : List Expr → Bool
+  | [] => true
+  | e :: es => e.complete && completeList es
+end
+
+mutual
+/-- every number literal of the tree is finite (what `visitExprAtom`'s `ParseFloat` guard gives) -/
+def Expr.numbersFinite : Expr → Bool
+  | .number f => f.isFinite
+  | .call _ ps => numbersFiniteList ps
+  | .paren e => e.numbersFinite
+  | .binary l r _ => l.numbersFinite && r.numbersFinite
+  | .not e => e.numbersFinite
+  | .selectItem e _ => e.numbersFinite
+  | .orderBy e _ => e.numbersFinite
+  | _ => true
+def numbersFiniteList : List Expr → Bool
+  | [] => true
+  | e :: es => e.numbersFinite && numbersFiniteList es
+end
+
+/-- the variant of `isCompleteExpr` that trusts function-call parameters (not the code) -/
+def Expr.completeNoParams : Expr → Bool
+  | .nil => false
+  | .selectItem e _ => e.completeNoParams
+  | .orderBy e _ => e.completeNoParams
+  | .paren e => e.completeNoParams
+  | .not e => e.completeNoParams
+  | .binary l r _ => l.completeNoParams && r.completeNoParams
+  | _ => true
+
+/-- the checks of `validation()` on the three clauses it looks at -/
+def Query.validated (q : Query) : Bool :=
+  completeList q.selectItems && completeList q.orderByItems &&
+    (match q.having with | .nil => true | h => h.complete)
+
+/-- node kinds with child links, and the fields that hold them -/
+def childFields : String → List String
+  | "SelectItem" | "OrderByExpr" | "ParenExpr" | "NotExpr" => ["Expr"]
+  | "BinaryExpr" => ["Left", "Right"]
+  | "CallExpr" => ["Params"]
+  | _ => []
+
 end LinVerif.Stmt
